@@ -304,6 +304,21 @@ def run_eq(case):
         A = _build_ordered(case["a"], case["oa"], nm, "first")
         B = _build_ordered(case["b"], case["ob"], nm, "second")
         A2 = _build_ordered(case["a"], [[list(reversed(o)) for o in r] for r in case["oa"]], nm, "third")
+        if case.get("ops"):
+            # history: compare once, modify both datasets in place, then the measured comparisons
+            _ = (A == B), (B == A), (A == A2)
+            for X in (A, A2):
+                for op in case["ops"]:
+                    if op["op"] == "remove_elements":
+                        X.remove_elements({_elem_of(X, nm, x) for x in op["S"]})
+                    elif op["op"] == "remove_rate":
+                        X.remove_elements_rate_presence_lower_than(op["p"] / op["q"])
+                    else:
+                        X.remove_empty_rankings()
+            rec["a"] = _rk_of(A, nm)
+            rec["b"] = _rk_of(B, nm)
+            if _rk_of(A2, nm) != rec["a"]:
+                raise ValueError("twin diverged")
         ab, ba = (A == B), (B == A)
         aa, bb = (A == A) and (A == A2), (B == B)
         ne = (A != B)
@@ -325,5 +340,5 @@ def run_eq(case):
         rec.update(ab=int(ab), ba=int(ba), aa=int(aa), bb=int(bb), rankeq=int(ok), out="ok")
         rec["neq"] = int(ne)
     except Exception as ex:
-        rec["out"] = "error:" + type(ex).__name__
+        rec["out"] = "setup-failed" if case.get("ops") else "error:" + type(ex).__name__
     return rec
